@@ -55,6 +55,10 @@ def impl(d):
     if k == "script":
         s = Script([tok_py(t) for t in d["sc"]])
         a, w = P2shAddress(script=s), P2wshAddress(script=s)
+        # the classmethod entry points must be the constructor
+        a2, w2 = P2shAddress.from_script(s), P2wshAddress.from_script(s)
+        if (a2.to_hash160(), a2.to_string(), w2.to_witness_program(), w2.to_string()) != (a.to_hash160(), a.to_string(), w.to_witness_program(), w.to_string()):
+            return "FROM_SCRIPT_DIFFERS"
         return "|".join([a.to_hash160(), w.to_witness_program(), s.to_p2sh_script_pub_key().to_bytes().hex(), s.to_p2wsh_script_pub_key().to_bytes().hex(),
                          a.to_script_pub_key().to_bytes().hex(), w.to_script_pub_key().to_bytes().hex(), a.to_string().encode().hex()])
     if k == "hist":
